@@ -19,6 +19,9 @@ pub mod scen_scanedit;
 pub mod scen_diag;
 pub mod hostile;
 pub mod scen_chaos;
+pub mod scen_locks;
+pub mod scen_discover;
+pub mod scen_cli;
 
 include!(concat!(env!("OUT_DIR"), "/overlay_info.rs"));
 
@@ -80,6 +83,7 @@ pub fn main() {
             std::process::exit(batch::replay(&spec, file));
         }
         Some("selftest") => std::process::exit(checks::selftest()),
+        Some("cli-child") => scen_cli::child_main(&args[2..]),
         _ => usage(),
     }
 }
